@@ -19,13 +19,13 @@ import (
 	"bytes"
 	"errors"
 	"fmt"
-	"regexp"
-	"unicode/utf8"
 	"hash/fnv"
 	"math"
+	"regexp"
 	"sort"
 	"strconv"
 	"strings"
+	"unicode/utf8"
 
 	"github.com/tobgu/qframe"
 	"github.com/tobgu/qframe/config/csv"
@@ -68,29 +68,33 @@ var floatBits = []uint64{
 	0x0000000000000001, 0x3fb999999999999a, 0x4059000000000000, 0x4008000000000000, 0x3fe0000000000000,
 }
 
-func isNaNBits(b uint64) bool { return b&0x7ff0000000000000 == 0x7ff0000000000000 && b&0x000fffffffffffff != 0 }
+func isNaNBits(b uint64) bool {
+	return b&0x7ff0000000000000 == 0x7ff0000000000000 && b&0x000fffffffffffff != 0
+}
 
 type gen struct {
-	redirect  map[int]qframe.QFrame     // congruence check: operations on member id are run on this frame instead
-	forceSrc  *hframe                   // congruence check: the next operation is generated for this member
-	batchMode bool                      // section conc: operations are collected, not executed
-	batch     []func() qframe.QFrame    // the collected operations
-	batchOps  []string                  // their kinds
+	redirect  map[int]qframe.QFrame  // congruence check: operations on member id are run on this frame instead
+	forceSrc  *hframe                // congruence check: the next operation is generated for this member
+	batchMode bool                   // section conc: operations are collected, not executed
+	batch     []func() qframe.QFrame // the collected operations
+	batchOps  []string               // their kinds
 	curOp     string
-	sharedCtx *eval.Context             // one evaluation context shared by all concurrent Eval calls
-	lastCnts []*int // callback counters of the instruction list generated last
-	inFapply bool
-	forceInv bool // all leaves of the clause being generated are inverse filters
-	r    *tx.Rng
-	w    *tx.W
-	size int
-	opt  map[string]string
-	fam  []*hframe
+	sharedCtx *eval.Context // one evaluation context shared by all concurrent Eval calls
+	lastCnts  []*int        // callback counters of the instruction list generated last
+	inFapply  bool
+	forceInv  bool // all leaves of the clause being generated are inverse filters
+	r         *tx.Rng
+	w         *tx.W
+	size      int
+	opt       map[string]string
+	fam       []*hframe
 	// probability controls
 	nullP int // out of 10
 	wide  bool
 	// declared enum value lists handed to earlier constructions (the slices themselves, to be reused)
 	declPool [][]string
+	// the invalid aggregation of the list is an unknown name on a valid column
+	forceBadAgg bool
 }
 
 func (g *gen) genInt() int {
@@ -770,15 +774,15 @@ type clause struct {
 
 var cmp6 = []string{"<", "<=", ">", ">=", "=", "!="}
 
-func p1Int(x int) bool        { return x&1 == 1 }
-func p1Float(x float64) bool  { return !math.IsNaN(x) && math.Signbit(x) } // the sign of a NaN is not a property of the value
-func p1Bool(x bool) bool      { return x }
-func p1Str(x *string) bool    { return x == nil }
-func p1StrLen(x *string) bool { return x != nil && len(*x) >= 2 }
-func p2Int(x, y int) bool     { return x < y }
+func p1Int(x int) bool          { return x&1 == 1 }
+func p1Float(x float64) bool    { return !math.IsNaN(x) && math.Signbit(x) } // the sign of a NaN is not a property of the value
+func p1Bool(x bool) bool        { return x }
+func p1Str(x *string) bool      { return x == nil }
+func p1StrLen(x *string) bool   { return x != nil && len(*x) >= 2 }
+func p2Int(x, y int) bool       { return x < y }
 func p2Float(x, y float64) bool { return x < y }
-func p2Bool(x, y bool) bool   { return x && !y }
-func p2Str(x, y *string) bool { return x != nil && y != nil && *x == *y }
+func p2Bool(x, y bool) bool     { return x && !y }
+func p2Str(x, y *string) bool   { return x != nil && y != nil && *x == *y }
 
 func (g *gen) genLeaf(f *hframe, bad bool) clause {
 	r := g.r
@@ -801,7 +805,7 @@ func (g *gen) genLeaf(f *hframe, bad bool) clause {
 	}
 	kind := r.Intn(10)
 	if bad {
-		kind = 10 + r.Intn(5)
+		kind = 10 + r.Intn(6)
 	}
 	switch {
 	case kind == 10: // unsupported comparator name
@@ -829,6 +833,20 @@ func (g *gen) genLeaf(f *hframe, bad bool) clause {
 			fl.Arg = "a"
 			toks = append(toks, tx.HexS("a"))
 		}
+	case kind == 15 && (col.typ == "s" || col.typ == "e"): // a pattern that is not a valid regular expression (the same few, again and again)
+		c := r.Pick([]string{"like", "ilike"})
+		if c == "ilike" && !g.allValidUTF8(f, col) {
+			c = "like"
+		}
+		setCmp(c)
+		v := r.Pick([]string{"(a", "%[b"})
+		g.emitLikeOracle(f, col, v, c == "ilike")
+		fl.Arg = v
+		toks = append(toks, tx.HexS(v))
+	case kind == 15:
+		setCmp("~=")
+		fl.Arg = nil
+		toks = append(toks, "nil")
 	case kind == 12: // comparator of an unsupported type
 		fl.Comparator = 42
 		fl.Arg = nil
@@ -873,7 +891,7 @@ func (g *gen) genLeaf(f *hframe, bad bool) clause {
 			setCmp(c)
 			var v string
 			if c == "like" || c == "ilike" {
-				v = r.Pick([]string{"a", "%a", "a%", "%a%", "%", "", "A%", "%B", "b.c", "^a", "%é"})
+				v = r.Pick([]string{"a", "%a", "a%", "%a%", "%", "", "A%", "%B", "b.c", "^a", "%é", "(a", "%[b", "a(%"})
 			} else if col.typ == "e" && len(col.vals) > 0 && !r.P(1, 6) {
 				v = col.vals[r.Intn(len(col.vals))]
 			} else {
@@ -1109,6 +1127,12 @@ var fn1Catalogue = []fnEntry{
 			return nil
 		}
 		return x
+	}},
+	{"s.flen", "se", func(x *string) float64 {
+		if x == nil {
+			return -0.5
+		}
+		return float64(len(*x)) / 2
 	}},
 	{"s.nvl", "se", func(x *string) *string {
 		if x == nil {
@@ -1352,8 +1376,8 @@ func (g *gen) genInstr(f *hframe, cols []colInfo, bad bool, written map[string]b
 			toks = append(toks, "-", "-", "c", tx.CInt(v))
 			break
 		}
-		// upper-casing that merges two values leaves a value table with duplicates (recorded finding KF-C17-enum-dup): rare
-		enumOK := c.typ == "e" && !g.inFapply && (upperInjective(c.vals) || (allValid(c.vals) && r.P(1, 3)))
+		// upper-casing may merge two values (a, A -> A): the merged table and the remapped codes are part of the result
+		enumOK := c.typ == "e" && !g.inFapply && (upperInjective(c.vals) || allValid(c.vals))
 		if !(c.typ == "s" || enumOK) || !g.allValidUTF8(f, c) || !sameCol(f, c) || written[c.name] {
 			v := g.genInt()
 			in.Fn = v
@@ -1591,12 +1615,12 @@ type aggT struct {
 	toks []string
 }
 
-func aggFirstI(v []int) int { return v[0] }
-func aggLastI(v []int) int  { return v[len(v)-1] }
-func aggLenI(v []int) int   { return len(v) }
+func aggFirstI(v []int) int         { return v[0] }
+func aggLastI(v []int) int          { return v[len(v)-1] }
+func aggLenI(v []int) int           { return len(v) }
 func aggFirstF(v []float64) float64 { return v[0] }
 func aggLastF(v []float64) float64  { return v[len(v)-1] }
-func aggFirstB(v []bool) bool { return v[0] }
+func aggFirstB(v []bool) bool       { return v[0] }
 func aggAllB(v []bool) bool {
 	for _, x := range v {
 		if !x {
@@ -1622,20 +1646,20 @@ func aggFirstS(v []*string) *string { return v[0] }
 func (g *gen) genAgg(f *hframe, keys []string, bad bool) aggT {
 	r := g.r
 	c, ok := g.pickCol(f)
-	if !ok || (bad && r.P(1, 3)) {
+	if !ok || (bad && !g.forceBadAgg && r.P(1, 3)) {
 		return aggT{qframe.Aggregation{Fn: "sum", Column: "nosuch"}, []string{"s" + tx.HexS("sum"), tx.HexS("nosuch"), tx.HexS("")}}
 	}
 	as := ""
 	if r.P(1, 2) {
 		as = r.Pick(legalNames)
 	}
-	if bad && r.P(1, 3) && len(keys) > 0 {
+	if bad && !g.forceBadAgg && r.P(1, 3) && len(keys) > 0 {
 		as = keys[0] // collides with a key column
 	}
 	a := qframe.Aggregation{Column: c.name, As: as}
 	var fnTok string
 	builtin := map[string][]string{"i": {"sum", "max", "min", "count"}, "f": {"sum", "max", "min", "avg", "count"}, "b": {"majority", "count"}, "s": {"count"}, "e": {"count"}}[c.typ]
-	if bad && r.P(1, 2) {
+	if bad && (g.forceBadAgg || r.P(1, 2)) {
 		a.Fn = "nosuchagg"
 		fnTok = "s" + tx.HexS("nosuchagg")
 	} else if r.P(1, 2) {
@@ -1901,8 +1925,18 @@ func (g *gen) genOp() {
 		toks := append(append(head, "groupagg", tx.Bool01(null)), nameToks(keys)...)
 		toks = append(toks, tx.Int(na))
 		badAt := -1
+		if bad {
+			na = 2 + r.Intn(3) // an invalid aggregation anywhere in a longer list, valid ones before and after it
+			aggs = make([]qframe.Aggregation, na)
+			toks[len(toks)-1] = tx.Int(na)
+		}
 		if bad && na > 0 {
 			badAt = r.Intn(na)
+		}
+		// half of the time: an unknown aggregation name on a valid column, followed by at least one more aggregation
+		g.forceBadAgg = bad && na >= 2 && r.Bool()
+		if g.forceBadAgg {
+			badAt = r.Intn(na - 1)
 		}
 		for i := range aggs {
 			a := g.genAgg(src, keys, i == badAt)
@@ -2420,7 +2454,8 @@ func (g *gen) rebuild(src *hframe) {
 }
 
 // congruence: a frame rebuilt from the observed values of another must yield Equal results under every operation.
-//   QC <op> <src> <rebuilt> <equals(a,b)> <equals(b,a)>
+//
+//	QC <op> <src> <rebuilt> <equals(a,b)> <equals(b,a)>
 func (g *gen) congruence(src, rebuilt *hframe) {
 	saveOps, hadOps := g.opt["ops"]
 	g.opt["ops"] = "filter+filter+sort+slice+select+drop+copy+apply+fapply+rownums+eval+eval"
@@ -2665,7 +2700,8 @@ func (w *faultWriter) Write(p []byte) (int, error) {
 }
 
 // writerFaults runs ToCSV and ToJSON against a writer that starts failing at every byte offset.
-//   WF <src> <kind> <total> <k> <err 0|1|P> <accepted>
+//
+//	WF <src> <kind> <total> <k> <err 0|1|P> <accepted>
 func (g *gen) writerFaults(src *hframe) {
 	if src.err || frameFacts(src).undef {
 		return
@@ -2764,7 +2800,9 @@ func (g *gen) witnessEnumDup() {
 	})
 	g.w.Line("XU", "2", tx.HexS("a"), tx.HexS("A"), tx.HexS("A"), tx.HexS("A"))
 	g.w.Line("O", "1", "0", "apply", "1", tx.HexS("e"), tx.HexS("e"), "-", "bi", tx.HexS("ToUpper"))
-	up := g.finish(1, func() qframe.QFrame { return base.qf.Apply(qframe.Instruction{Fn: "ToUpper", DstCol: "e", SrcCol1: "e"}) })
+	up := g.finish(1, func() qframe.QFrame {
+		return base.qf.Apply(qframe.Instruction{Fn: "ToUpper", DstCol: "e", SrcCol1: "e"})
+	})
 	g.w.Line("CB", "1", "1", "-1")
 	g.w.Line("O", "2", "1", "filter", "F", "0", tx.HexS("e"), "s"+tx.HexS("="), tx.HexS("A"))
 	g.finish(2, func() qframe.QFrame { return up.qf.Filter(qframe.Filter{Column: "e", Comparator: "=", Arg: "A"}) })
